@@ -3,6 +3,7 @@ import Std.Data.HashSet
 import EupsModel.Drv.Util
 import EupsModel.Model.Lock
 import EupsModel.Model.LockPath
+import EupsModel.Model.LockRace
 /-! Driver handler of C09 (model `c09`).
 
 * `{"m":"c09","op":"run","procs":[{"kind":"E"|"S","lp":null|n,"tries":n}..],"sched":[pid..]}` runs the schedule
@@ -340,12 +341,91 @@ def opRunPath (j : Json) : Except String Json := do
       | _ => Json.null).toArray),
     ("listing", Json.arr listing.toArray)])
 
+/-! ### race-free exploration (development aid for `C09_classification`): only steps that are none of the three races;
+every candidate invariant evaluated on every reachable state, bounded to the pids of the configuration -/
+
+def admitsB (s : St) (p : Pid) : Bool :=
+  (match s.pc p with | .scanAll _ => parentHolds (s.lp p) s.files | _ => false)
+  || (s.pc p == .scan && (exFiles s.files).length == 0)
+  || (s.pc p == .scan2 && (match (exFiles s.files).head? with | some f => s.lp p == some f.2 | none => false))
+
+def racyB (n : Nat) (s : St) (p : Pid) : Bool :=
+  (admitsB s p && (List.range n).any fun q =>
+      q != p && !decide (related s p q) && Lock.inflight (s.pc q) && (s.kind p == .ex || s.kind q == .ex))
+  || (s.pc p == .rmdir && s.dir && s.files.isEmpty && (List.range n).any fun q => q != p && Lock.inflight (s.pc q))
+  || (s.pc p == .existsChk && !s.dir)
+
+def pastB : PC → Bool
+  | .create | .hold | .isdir | .rexists | .remove => true
+  | _ => false
+
+def inAdmB : PC → Bool
+  | .scan | .scan2 | .create | .hold | .isdir | .rexists | .remove => true
+  | _ => false
+
+def hasFileB : PC → Bool
+  | .hold | .isdir | .rexists | .remove => true
+  | _ => false
+
+/-- index of an entry in the listing -/
+def posOf (fs : List (Kind × Pid)) (f : Kind × Pid) : Option Nat := fs.findIdx? (· == f)
+
+def invChecks (n : Nat) (s : St) : List (String × Bool) :=
+  let ids := List.range n
+  [ ("dirIn", ids.all fun p => !Lock.inflight (s.pc p) || s.dir),
+    ("noUnl", ids.all fun p => !(s.pc p == .unlocked)),
+    ("k1", ids.all fun p => !(s.pc p == .existsChk) || s.kind p == .sh),
+    ("exsh", ids.all fun p => ids.all fun q =>
+      p == q || decide (related s p q) || !(s.kind p == .ex) || !(s.kind q == .sh) || !inAdmB (s.pc p) || !pastB (s.pc q)),
+    ("exex", ids.all fun p => ids.all fun q =>
+      p == q || decide (related s p q) || !(s.kind p == .ex) || !(s.kind q == .ex) || !pastB (s.pc p) || !pastB (s.pc q)),
+    ("order", ids.all fun p => ids.all fun r =>
+      !(s.lp p == some r) ||
+        (match posOf s.files (.ex, p), posOf s.files (.ex, r) with
+         | some a, some b => a < b
+         | _, _ => true)),
+    ("rootIn", ids.all fun r => ids.all fun p =>
+      !(Lock.inflight (s.pc r)) || !(s.kind r == .ex) || !(s.lp p == some r) || !(s.kind p == .ex) || !inAdmB (s.pc p)),
+    ("mutex", (violators n s).isEmpty) ]
+
+def opRaceFree (j : Json) : Except String Json := do
+  let ps := (← (← jarr j "procs").mapM procOfJson).toArray
+  let maxStates := (jnat j "max").toOption.getD 2000000
+  let n := ps.size
+  let x0 := snapInit ps false
+  let mut idx : Std.HashSet Snap := {}
+  idx := idx.insert x0
+  let mut todo : Array Snap := #[x0]
+  let mut bad : Std.HashMap String Nat := {}
+  let mut states : Nat := 0
+  let mut skipped : Nat := 0
+  let mut u := 0
+  while u < todo.size do
+    let x := todo[u]!
+    u := u + 1
+    states := states + 1
+    let s := snapSt ps x
+    for (nm, ok) in invChecks n s do
+      if !ok then bad := bad.insert nm (bad.getD nm 0 + 1)
+    for p in [0:n] do
+      if !terminal (x.pcs.getD p .done) then
+        if racyB n s p then
+          skipped := skipped + 1
+        else
+          let y := snapStep ps false x p
+          if !idx.contains y && todo.size < maxStates then
+            idx := idx.insert y
+            todo := todo.push y
+  pure (Json.mkObj [("states", states), ("racy_steps_skipped", skipped),
+    ("violated", Json.mkObj (bad.toList.map fun (k, v) => (k, toJson v)))])
+
 def handle : Handler := fun j => do
   let op ← (← j.getObjVal? "op").getStr?
   match op with
   | "run" => opRun j
   | "explore" => opExplore j
   | "runpath" => opRunPath j
+  | "racefree" => opRaceFree j
   | _ => throw s!"unknown op {op}"
 
 end EupsModel.Drv.C09
